@@ -3,7 +3,8 @@ import signal
 
 from simkit.core import Result, h64
 from simkit.kernel import Sim, current_task
-from worlds import master, worker as W
+from worlds import master, worker as W, conn as C
+from oracles import resp_ref
 
 ID = "C18"
 LEVEL = "exploration"
@@ -12,7 +13,8 @@ QUICK_RUNS = 16000
 THOROUGH_MIN_RUNS = 40000
 BATCH = 50
 CASE_WALL_S = 60.0
-RULE = ("two case families.  worker (W3): the real SyncWorker / ThreadWorker with max_requests 0-4 and jitter 0-2 (the jitter draw "
+ISOLATE = True      # every run in a forked child: no interpreter state leaks from one simulated server to the next
+RULE = ("three case families.  conn (W2): the real per-connection code of all three families (sync, gthread, async keep-alive loop) serving a sequence of keep-alive connections on one worker object: exact counting rule.  worker (W3): the real SyncWorker / ThreadWorker with max_requests 0-4 and jitter 0-2 (the jitter draw "
         "comes from the seed; the harness reads the worker's drawn limit) under sequential or concurrent scripted clients, fresh and "
         "keep-alive connections, fast and slow applications.  full (W4): the real Arbiter with the real workers under continuous "
         "client load.  Oracles: the worker handles at most limit + (connections open when the limit is reached) requests and accepts "
@@ -32,7 +34,79 @@ COMPONENTS = {"real": ["Worker.__init__ (limit + jitter)", "SyncWorker.run/handl
               "not_covered": ["base_async limit check inside real gevent/eventlet loops"]}
 
 
+def make_conn_case(index, rng, tier):
+    fam = rng.choice(C.FAMILIES)
+    conns = [[rng.choice(["/a", "/b", "/c"]) for _ in range(rng.randrange(1, 6))] for _ in range(rng.randrange(1, 5))]
+    return {"family": "conn", "kind": fam, "max_requests": rng.choice([0, 1, 2, 3, 4]), "jitter": rng.choice([0, 0, 1, 2]),
+            "jitter_draw": rng.randrange(0, 3), "conns": conns, "keepalive": rng.choice([0, 2, 2, 5])}
+
+
+def run_conn(case, choices):
+    """The exact counting rule on the real per-connection code of all three families (W2): connections that are open when
+    the limit is reached may each serve at most one more request, and every response after the limit says Connection: close."""
+    from simkit.core import EventLog
+    res = Result()
+    log = EventLog()
+    C.reset_run()
+    kind = case["kind"]
+    cfg = C.make_cfg(keepalive=case["keepalive"], max_requests=case["max_requests"], max_requests_jitter=case["jitter"])
+    state = C.AppState()
+    prog = [{"status": "200 OK", "headers": [["Content-Length", "2"]], "kind": "list", "chunks": ["ok"], "read_body": "none"}]
+    worker = C.make_worker(kind, cfg, C.make_app(prog, state), jitter_draw=case["jitter_draw"])
+    limit = worker.max_requests
+    ctx = lambda: "family=conn kind=%s max_requests=%d jitter=%d drawn_limit=%r keepalive=%s connections=%r" % (
+        kind, case["max_requests"], case["jitter"], limit, case["keepalive"], case["conns"])
+    if case["max_requests"] > 0 and not (case["max_requests"] <= limit <= case["max_requests"] + case["jitter"]):
+        res.violate("C18:conn:%s:limit-out-of-range" % kind, "request limit %r for max_requests=%d jitter=%d; %s" % (limit, case["max_requests"], case["jitter"], ctx()))
+    total = 0
+    limit_hit_conn = None
+    for ci, paths in enumerate(case["conns"]):
+        data = "".join("GET %s HTTP/1.1\r\nHost: h\r\n\r\n" % pth for pth in paths).encode()
+        before = state.calls
+        was_over = case["max_requests"] > 0 and before >= limit
+        sock = C.SimSock(data, ())
+        esc = C.serve(worker, kind, sock)
+        served = state.calls - before
+        log.add(kind, "conn", (ci, served, worker.alive))
+        if esc is not None:
+            res.violate("C18:conn:%s:exception-escaped" % kind, "%r escaped; %s" % (esc, ctx()))
+        resps, probs, rest = resp_ref.parse(bytes(sock.wire), [{"method": "GET"}] * (len(paths) + 1))
+        for j, r in enumerate(resps):
+            n_global = before + j + 1
+            says = resp_ref.header(r, b"connection")
+            says = says[0].lower() if says else b""
+            if case["max_requests"] > 0 and n_global >= limit and says != b"close" and r.get("code") == 200:
+                res.violate("C18:conn:%s:keepalive-after-limit" % kind,
+                            "connection %d response %d is request #%d of the worker (limit %d) and still announces %r: the worker keeps "
+                            "accepting work on this connection after its limit; %s" % (ci, j, n_global, limit, says, ctx()))
+        if was_over and served > 1:
+            res.violate("C18:conn:%s:served-after-limit" % kind,
+                        "the worker had reached its limit (%d) before connection %d, which was then served %d requests (at most the one in "
+                        "flight may be answered); %s" % (limit, ci, served, ctx()))
+        if case["max_requests"] > 0 and before < limit <= state.calls:
+            limit_hit_conn = ci
+            res.probes["limit_reached"] += 1
+            if state.calls > limit:
+                res.violate("C18:conn:%s:served-past-limit-on-connection" % kind,
+                            "connection %d reached the limit at request #%d but %d requests were served on it afterwards; %s"
+                            % (ci, limit, state.calls - limit, ctx()))
+        if case["max_requests"] > 0 and state.calls >= limit and worker.alive:
+            res.violate("C18:conn:%s:alive-after-limit" % kind, "the worker handled %d requests (limit %d) and still has alive=True; %s"
+                        % (state.calls, limit, ctx()))
+    if case["max_requests"] == 0 and not worker.alive:
+        res.violate("C18:conn:%s:recycled-without-limit" % kind, "max_requests=0 but alive=False after %d requests; %s" % (state.calls, ctx()))
+    res.nontrivial = limit_hit_conn is not None
+    res.from_log(log)
+    res.shape = h64(kind, case["max_requests"], case["jitter"], case["jitter_draw"], case["conns"], case["keepalive"])
+    res.states.add(h64("conn", kind, case["max_requests"], limit if case["max_requests"] else 0, state.calls, worker.alive))
+    res.sample = {"family": "conn", "kind": kind, "max_requests": case["max_requests"], "drawn_limit": limit if case["max_requests"] else None,
+                  "connections": case["conns"], "handled": state.calls}
+    return res
+
+
 def make_case(index, rng, tier):
+    if index % 4 == 3:
+        return make_conn_case(index, rng, tier)
     fam = "full" if index % 3 == 2 else "worker"
     kind = rng.choice(["sync", "gthread"])
     mr = rng.choice([0, 1, 2, 2, 3, 4])
@@ -62,6 +136,8 @@ def client_script(c):
 
 
 def run(case, choices):
+    if case["family"] == "conn":
+        return run_conn(case, choices)
     return run_worker(case, choices) if case["family"] == "worker" else run_full(case, choices)
 
 
@@ -238,6 +314,14 @@ def run_full(case, choices):
 
 
 def shrink(case):
+    if case["family"] == "conn":
+        cs = case["conns"]
+        for i in range(len(cs)):
+            if len(cs) > 1:
+                yield dict(case, conns=cs[:i] + cs[i + 1:])
+            if len(cs[i]) > 1:
+                yield dict(case, conns=cs[:i] + [cs[i][:-1]] + cs[i + 1:])
+        return
     cl = case["clients"]
     for i in range(len(cl)):
         if len(cl) > 1:
